@@ -11,16 +11,17 @@ type step struct {
 }
 
 type scenario struct {
-	Proto       string   `json:"proto"`
-	UDPSize     int      `json:"udp_size"`
-	Workers     int      `json:"workers"`
-	GoMaxProcs  int      `json:"gomaxprocs"`
-	CacheFile   string   `json:"cache_file"`
-	ElementsDir string   `json:"elements_dir"`
-	MirrorAddr  string   `json:"mirror_addr"`
-	MirrorPort  int      `json:"mirror_port"`
-	MirrorWait  string   `json:"mirror_wait_file"`
-	TypeFilter  []uint32 `json:"type_filter"`
-	Verbose     bool     `json:"verbose"`
-	Steps       []step   `json:"steps"`
+	Proto        string   `json:"proto"`
+	UDPSize      int      `json:"udp_size"`
+	OtherUDPSize int      `json:"other_udp_size,omitempty"` // max-udp-size of the protocols the scenario does not drive
+	Workers      int      `json:"workers"`
+	GoMaxProcs   int      `json:"gomaxprocs"`
+	CacheFile    string   `json:"cache_file"`
+	ElementsDir  string   `json:"elements_dir"`
+	MirrorAddr   string   `json:"mirror_addr"`
+	MirrorPort   int      `json:"mirror_port"`
+	MirrorWait   string   `json:"mirror_wait_file"`
+	TypeFilter   []uint32 `json:"type_filter"`
+	Verbose      bool     `json:"verbose"`
+	Steps        []step   `json:"steps"`
 }
